@@ -50,6 +50,8 @@ type c12Msg struct {
 
 func genC12(rng *rand.Rand, c *Case) {
 	c.Cfg["policy"] = rng.Intn(3)
+	// a third of the cases make every function entry of the server a scheduling point (races on lock-free shared state)
+	c.Cfg["fnyield"] = rng.Intn(3) / 2
 	c.Cfg["seg_s2c"] = rng.Intn(2)
 	n := 2 + rng.Intn(6)
 	c.Cfg["clients"] = n
